@@ -65,6 +65,9 @@ SeedYamlFlow == << "a", ":", " ", "[", "x", ",", " ", "\"y\"", "]", "\n" >>
 
 SeedJsonSmall == << "[", "\"", "\\u", "00e9", "\"", ",", "-1", "]" >>
 
+\* "é" as an escaped string: valid JSON and valid YAML
+SeedTiny == << "\"", "\\u", "00e9", "\"" >>
+
 \* a,b,c / 1,"x,y",3 / "q""r",,  (last record CRLF)
 SeedDsv ==
   << "a", ",", "b", ",", "c", "\n",
@@ -86,6 +89,7 @@ SeedJq ==
 Seed(n) ==
   CASE n = "json" -> [fam |-> "json", doc |-> SeedJson]
     [] n = "jsonsmall" -> [fam |-> "json", doc |-> SeedJsonSmall]
+    [] n = "tiny" -> [fam |-> "yaml", doc |-> SeedTiny]
     [] n = "yamlblock" -> [fam |-> "yaml", doc |-> SeedYamlBlock]
     [] n = "yamldocs" -> [fam |-> "yaml", doc |-> SeedYamlDocs]
     [] n = "yamlmerge" -> [fam |-> "yaml", doc |-> SeedYamlMerge]
